@@ -44,13 +44,14 @@ def run(tier, seed, replay):
         return None
     chk.run_contract(E, c, replay=replay_cli)
     # the exit status is what the operating system keeps of the argument of sys.exit (its low 8
-    # bits): every sys.exit in main() passes a literal 0 / 1 or a choice between the two -- a
-    # count or any other integer could wrap to 0
+    # bits): every sys.exit in main() passes a literal 0..255 or a choice between such literals --
+    # a count or any other computed integer could wrap to 0 (which non-zero value is used is
+    # not part of the statement)
     import ast as _ast0
     mainf0 = chk.repo.find_function(CLI.MAIN)
 
     def small_status(e, depth=0):
-        if isinstance(e, _ast0.Constant) and e.value in (0, 1) and not isinstance(e.value, bool):
+        if isinstance(e, _ast0.Constant) and isinstance(e.value, int) and not isinstance(e.value, bool) and 0 <= e.value <= 255:
             return True
         if isinstance(e, _ast0.IfExp):
             return small_status(e.body, depth) and small_status(e.orelse, depth)
@@ -66,9 +67,9 @@ def run(tier, seed, replay):
         return False
     exits = [x for x in _ast0.walk(mainf0.node) if isinstance(x, _ast0.Call) and _ast0.unparse(x.func) in ("sys.exit", "exit")]
     bad_exits = [_ast0.unparse(x) for x in exits if len(x.args) != 1 or not small_status(x.args[0])]
-    chk.frame("main.exit_statuses_are_literally_0_or_1", bool(exits) and not bad_exits,
-              {"exits": [_ast0.unparse(x) for x in exits], "not_0_or_1": bad_exits},
-              what=f"main() passes something else than 0 / 1 to sys.exit ({bad_exits}): the operating system keeps the low "
+    chk.frame("main.exit_statuses_are_small_literals", bool(exits) and not bad_exits,
+              {"exits": [_ast0.unparse(x) for x in exits], "computed": bad_exits},
+              what=f"main() passes a computed value to sys.exit ({bad_exits}): the operating system keeps the low "
                    "8 bits only, a status such as a count of 256 reads as success")
     # a fatal error is reported by name only if it is the exception main() catches: every
     # explicit raise outside the tokenizer is CParsingError (the tokenizer's own exceptions are C05)
